@@ -48,6 +48,10 @@ impl FromStr for CardPair {
             return Err(Self::Err::InvalidLength(value.len()));
         }
 
+        if !value.is_char_boundary(2) {
+            return Err(Self::Err::InvalidCardStr(value.to_string()));
+        }
+
         match (Card::from_str(&value[0..2]), Card::from_str(&value[2..4])) {
             (Ok(l), Ok(r)) => Ok(CardPair::new(l, r)),
             (Err(_), _) => Err(Self::Err::InvalidCardStr((&value[0..2]).to_string())),
